@@ -137,9 +137,59 @@ def rule_tokens(ctx):
         ctx.check(R, "grammar/else", (el["alts"][0]["action"] or "").replace(" ", "") == "else_case", el["alts"][0]["action"])
 
 
+IRL = "program_structure/src/intermediate_representation/lifting.rs"
+IRF = "program_structure/src/intermediate_representation/ir.rs"
+
+
+def rule_kind_tables(ctx, R="C13.4"):
+    ctx.rule(R, "the lifting keeps operators and kinds: every arm of the AST-to-IR tables for infix / prefix opcodes, assignment operators, signal and variable types maps a variant to the IR variant of the same name (or, where the IR renamed it, to a variant no other arm maps to), and every AST variant has an arm")
+    import a10
+    from astlib import fns_in_file, last, pat_paths
+
+    n = 0
+    for q, f in fns_in_file(IRL):
+        m_ = re.search(r"TryLift<\(\)>\s*for\s*(?:ast::)?(\w+)", q)
+        if not m_ or f["name"] != "try_lift" or not f.get("body"):
+            continue
+        en = m_.group(1)
+        if en not in ("ExpressionInfixOpcode", "ExpressionPrefixOpcode", "AssignOp", "SignalType", "VariableType"):
+            continue
+        src = a10.enum_def("program_structure/src/abstract_syntax_tree/ast.rs", en)
+        ms = [m for m in walk(f["body"]) if m["k"] == "Match"]
+        if not ms or src is None:
+            ctx.missing(R, "lifting/%s" % en)
+            continue
+        targets = {}
+        for a in ms[0]["arms"]:
+            b = strip(a["body"])
+            tgt = None
+            if b["k"] == "Call" and render(b["func"]) == "Ok" and strip(b["args"][0])["k"] == "Path":
+                tgt = last(strip(b["args"][0])["path"])
+            for pth in pat_paths(a["pat"]):
+                targets[last(pth)] = (tgt, a)
+        ir_en = None
+        for cand in (en, {"VariableType": "VariableType"}.get(en, en)):
+            ir_en = a10.enum_def(IRF, cand) or ir_en
+        for v in src:
+            n += 1
+            if v not in targets:
+                ctx.bad(R, "lifting/%s::%s/has-an-arm" % (en, v), "no arm for this variant", site(IRL, f))
+                continue
+            tgt, arm = targets[v]
+            if tgt is None:
+                ctx.ok(R, "lifting/%s::%s/kept" % (en, v), "compound arm (payload lifted)", site(IRL, arm))
+                continue
+            same = ir_en is not None and v in ir_en
+            others = [o for o, (t2, _a) in targets.items() if o != v and t2 == tgt]
+            ok = (tgt == v) if same else not others
+            ctx.check(R, "lifting/%s::%s/kept" % (en, v), ok, "%s::%s is lifted to %s%s" % (en, v, tgt, (" (also the image of %s)" % others) if others else ""), site(IRL, arm))
+    ctx.floor(R, "opcode / kind table rows", n, 30)
+
+
 def run(ctx):
     rule_expansions(ctx)
     rule_tokens(ctx)
+    rule_kind_tables(ctx)
     ctx.rules["C13.3"] = "the lifting turns while/if into header/branch blocks with the targets and fall-through sets of C12.2 (shared rule)"
     sub = type(ctx)(ctx.pid, ctx.tier)
     c12.rule_lifting(sub)
